@@ -22,6 +22,40 @@ def char_boundaries(text):
     return offs
 
 
+def gen_string_error(cs):
+    """a string / bytes / f-string literal whose *inside* is wrong somewhere - after well-formed pieces (escapes, replacement
+    fields with comparison operators, nested specs, non-ASCII text): the error offset is computed by the literal's own parser,
+    character by character, and must still land inside the input on a character boundary"""
+    pfx = cs.pick(['f', 'F', 'rf', 'fr', '', 'b', 'u', 'rb', 'f', 'f'])
+    q = cs.pick(["'", '"', "'''", '"""'])
+    isf, isb = 'f' in pfx.lower(), 'b' in pfx.lower()
+    na = (lambda: '') if isb else (lambda: cs.pick(['', '', 'é', '中', '\U0001f600', 'ß ']))
+    good = []
+    for _ in range(cs.choice(5)):
+        j = cs.choice(8)
+        if j == 0:
+            good.append(cs.pick(['abc', ' ', '%s', 'x y']) + na())
+        elif j == 1:
+            good.append(cs.pick(['\\n', '\\x41', '\\101', '\\\\', '\\u00e9' if not isb else '\\t', '\\N{DIGIT ONE}' if not isb else '\\0']))
+        elif isf and j == 2:
+            good.append('{' + cs.pick(['a==b', 'a != b', 'n <= 10', 'x>=y', 'a == b == c', 'é==é', 'a is not b']) + cs.pick(['', '!r', ':>5', '=']) + '}' + na())
+        elif isf and j == 3:
+            good.append('{' + cs.pick(['x', 'é', 'd["k"]', 'f(a, b)', '(a, b)', 'x:{w}', 'x!r:>{w}.{p}', 'x=', 'lambda_', 'a if b else c']) + '}' + na())
+        elif isf and j == 4:
+            good.append(cs.pick(['{{', '}}', '{{}}']) + na())
+        elif q in ("'''", '"""') and j == 5:
+            good.append(cs.pick(['\n', '\r\n', '\r']) + na())
+        else:
+            good.append(na() + cs.pick(['a', '0', '_']))
+    bad_f = ['{x!' + cs.pick(['é', 'z', '', 'rr', '中']) + '}', '{', '}', '{x', '{x!r', '{x:{y:{z}}}', '{}', '{ }', '{x!r:{', '{é é}', '{a b}', '{x:}}', '{(x}', '{x]}', '{"}', '{\\}', '{#}', '{x=!}', '{!r}']
+    bad_s = ['\\N{é', '\\N{', '\\N{NOT A NAME}', '\\x' + cs.pick(['', 'g', '4', 'é']), '\\u12' + cs.pick(['', 'é', 'g']), '\\U0011' + cs.pick(['0000', '', 'é']), '\\N']
+    bad_b = ['é', '中', '\\x' + cs.pick(['', 'g', '4'])]
+    bad = cs.pick(bad_b if isb else (bad_f + bad_s if isf else bad_s))
+    tail = cs.pick(['', 'z', 'é' if not isb else 'y', '{y}' if isf else 'y'])
+    lit = pfx + q + ''.join(good) + bad + tail + q
+    return cs.pick(['%s', 'x = %s', 'print(%s)', 'é = %s\n', '# é\n%s', 'f(%s, 1)', 'x = [%s,\n 2]']) % lit + cs.pick(['', '\n', '\r\n'])
+
+
 class C03(Property):
     fuzz_target = 'fuzz_parse'
 
@@ -68,7 +102,7 @@ class C03(Property):
                     yield {'k': 'text', 'text': text, 'mode': mode, 'off': off}
 
     def gen(self, cs, ctx):
-        k = cs.weighted([40, 30, 50, 40, 60, 36])
+        k = cs.weighted([40, 30, 50, 40, 60, 36, 30])
         sub = ChoiceStream(cs.d[64:])
         if k in (0, 1, 2, 3):
             base = invalid.base_program(sub)
@@ -83,6 +117,8 @@ class C03(Property):
             text, kind = invalid.gen_char_mutant(cs, base), 'char_mutant'
         elif k == 4:
             text, kind = invalid.gen_soup(cs), 'soup'
+        elif k == 6:
+            text, kind = gen_string_error(cs), 'string_literal_with_an_error_inside'
         else:
             text, kind = invalid.gen_unicode(cs), 'unicode'
         n = len(text.encode('utf-8'))
